@@ -1,0 +1,6 @@
+//go:build !verif
+
+package command
+
+// verifFake is a no-op without the verif build tag.
+func verifFake(_ *CmdWrapper) VerifFakeCmd { return nil }
